@@ -66,6 +66,13 @@ def showEv : Ev → String
   | .fail e => "ERR:" ++ showErr e
   | .hang => "HANG"
 
+/-- consecutive content chunks are one observable: merge them, keeping the counter of the last -/
+def mergeData : List (Ev × Nat) → List (Ev × Nat)
+  | (.data a, _) :: (.data b, k) :: rest => mergeData ((.data (a ++ b), k) :: rest)
+  | x :: rest => x :: mergeData rest
+  | [] => []
+termination_by l => l.length
+
 def run (line : String) : String :=
   let (head, tail) := match line.splitOn "|" with
     | [h] => (h, "")
@@ -80,7 +87,7 @@ def run (line : String) : String :=
     let limit := if lim == 0 then Consts.mpDefaultBufferLimit else lim
     let total := script.length
     let s := Multipart.run Cfg.fixed (fuelFor script) (initSys boundary form limit plans script)
-    let evs := s.trace.reverse.map fun (e, left) => showEv e ++ "@" ++ toString (total - left)
+    let evs := (mergeData s.trace.reverse).map fun (e, left) => showEv e ++ "@" ++ toString (total - left)
     joinWith " " (if s.finished then evs else evs ++ ["FUEL"])
   | _, _, _ => "bad-case"
 
